@@ -126,7 +126,23 @@ const (
 	MMixin
 	MEvent
 	MSubscribe
+	MCollector
 )
+
+// one line of a `.. * <- *:` block
+const (
+	CCall   = iota // Target <- Ep [..]   (also `Sub <- Pub -> Evt [..]`: the lexer reads `Pub -> Evt` as one endpoint text)
+	CAction        // EndpointName [..]
+	CHttp          // VERB /path [..]
+)
+
+type CEntry struct {
+	Kind    int
+	Target  []string
+	Ep      string // CCall: endpoint text; CAction: endpoint name; CHttp: path as written after the verb
+	Verb    string
+	Attribs []Entry // never empty (the grammar requires [ ... ])
+}
 
 type TableItem struct { // a field or an annotation line inside !type / !table
 	Field *Field
@@ -194,6 +210,8 @@ type Member struct {
 	Body   []Stmt
 	Rest   *RestNode
 	App    []string // mixin target / subscription source
+	// collector
+	Collector []CEntry
 }
 
 type Block struct {
@@ -377,6 +395,16 @@ func (m Member) Gallina() string {
 		return fmt.Sprintf("MEvent %s %s %s %s", gs(m.Name), gFields(m.Params), gEntries(m.Attribs), gStmts(m.Body))
 	case MSubscribe:
 		return fmt.Sprintf("MSubscribe %s %s %s %s", gss(m.App), gs(m.Name), gEntries(m.Attribs), gStmts(m.Body))
+	case MCollector:
+		return "MCollector " + glist(m.Collector, func(c CEntry) string {
+			switch c.Kind {
+			case CCall:
+				return "CCall " + gss(c.Target) + " " + gs(c.Ep) + " " + gEntries(c.Attribs)
+			case CAction:
+				return "CAction " + gs(c.Ep) + " " + gEntries(c.Attribs)
+			}
+			return "CHttp " + verbG[c.Verb] + " " + gs(c.Ep) + " " + gEntries(c.Attribs)
+		})
 	}
 	panic("member kind")
 }
